@@ -54,6 +54,11 @@ man = {
         "path": "lean/ (models, theorems, drivers) + harness/ (correspondence, oracles)",
         "serves_properties": [c["property_id"] for c in checks],
         "kind_free_text": "Lean 4 theorems over hand-written executable models; models tied to /repo on every run by differential correspondence (real classes in-process vs compiled model drivers) and by tables/expressions extracted from the source; direct oracles on implementation outputs search for failing inputs",
+    }, {
+        "name": "sim-integrated",
+        "path": "lean/LdarModel/Model/Sim.lean, lean/LdarModel/Props/Sim.lean, harness/props/sim.py (run: ./check SIM [--tier thorough])",
+        "serves_properties": ["C01", "C02", "C03", "C04", "C05", "C06", "C07", "C08", "C10", "C11"],
+        "kind_free_text": "integrated executable Lean model of the whole day loop (composition of the component models) validated column by column against whole real runs with all random draws recorded; composition theorems lift the component theorems (C02/C03/C04 life-cycle, C11 ledger, C10 cost identity, C08 budget, C05 zero coverage, C06/C07 schedule) to the integrated model; an engine-level extra, not one of the 19 claimed checks",
     }],
     "checks": checks,
     "notes": "fix: commits in /repo and recorded findings are listed in known_findings.json; DESIGN.md section 6.",
